@@ -91,7 +91,8 @@ class Adapter(EnvAdapter):
         if tier == "quick":
             return [
                 # default size (TSP-v1): 20 cities, uniform, dense; 20 probes from every second state
-                _c("u20_dense", "uniform", 20, "dense", 4, ["masked", "nearest", "revisit_at_end", "mostly_masked"], probe_every=2),
+                _c("u20_dense", "uniform", 20, "dense", 4, ["masked", "nearest", "revisit_at_end", "mostly_masked"], probe_every=2,
+                   default_ctor=True),
                 _c("u20_sparse", "uniform", 20, "sparse", 3, ["nearest", "masked", "revisit_at_end"], probe_every=3),
                 _c("u6_dense", "uniform", 6, "dense", 8, full),
                 _c("u6_sparse", "uniform", 6, "sparse", 8, full),
@@ -116,6 +117,9 @@ class Adapter(EnvAdapter):
             out.append(_c(f"u{n}_{rew}", "uniform", n, rew, 24, full))
         for n, rew in ((2, "dense"), (3, "dense"), (3, "sparse"), (4, "dense"), (4, "sparse")):
             out.append(_c(f"r{n}_{rew}", "rect", n, rew, 48, full))
+        for c in out:       # the registered default is built by the library's own no-argument constructor
+            if c["id"] == "u20_dense":
+                c["default_ctor"] = True
         return out
 
     # ---- the real environment -------------------------------------------------------------
@@ -129,6 +133,10 @@ class Adapter(EnvAdapter):
         return TSP(generator=generator, reward_fn=DenseReward() if rew == "dense" else SparseReward())
 
     def make(self, cfg):
+        if cfg.get("default_ctor"):       # the documented defaults come from the library's own no-argument constructor
+            from jumanji.environments.routing.tsp import TSP
+
+            return TSP()
         return self._build(cfg["ctor"], cfg["ctor"]["reward_fn"])
 
     def make_alt(self, cfg):
